@@ -286,8 +286,13 @@ func main() {
 	_ = flag.String("bin", "", "")
 	_ = flag.String("repo", "", "")
 	_ = flag.String("replay", "", "")
+	aux := flag.String("aux", "", "auxiliary input")
 	flag.Parse()
 	_ = os.MkdirAll(out, 0o755)
+	if flag.Arg(0) == "tokens" {
+		tokensMode(tier, out, *aux)
+		return
+	}
 	if flag.Arg(0) == "play" {
 		b := chord.NewBuilder()
 		for _, x := range chord.BasicAttributes() {
